@@ -113,6 +113,8 @@ def require_graph_actions(info, actions):
 
 def replay(ctx, vh, sub, beh, tag=None, opts=None, timeout=1800):
     res = ctx.run_engine(vh, sub, beh, tag=tag or sub, opts=opts, timeout=timeout)
+    if any(str(x.get("key", "")).endswith(":engine-crash") for x in res):
+        return res      # the engine process died in the code under test: reported as a failure
     if len(res) != len(beh):
         raise verif.ToolError("engine returned %d results for %d schedules" % (len(res), len(beh)))
     return res
